@@ -242,6 +242,19 @@ impl Vm {
         Slot::Obj(id)
     }
 
+    /// results pushed by an opcode are always objects: when a MARK was consumed as
+    /// the ordinary "target" operand, `dis` pushes the table's result object instead
+    fn target_as_obj(&mut self, s: Slot, kind: Kind) -> Slot {
+        match s {
+            Slot::Obj(_) => s,
+            Slot::Mark => {
+                let o = self.new_obj(kind);
+                self.objs[o].holds_mark = true;
+                Slot::Obj(o)
+            }
+        }
+    }
+
     fn slot_desc(&self, s: Slot) -> String {
         match s {
             Slot::Mark => "MARK".to_string(),
@@ -596,17 +609,22 @@ impl Vm {
                 self.stack.push(s);
             }
             "APPEND" => {
-                let target = popped[0];
+                let target = self.target_as_obj(popped[0], Kind::List);
                 self.store(target, &popped[1..], &mut info);
                 self.stack.push(target);
             }
             "SETITEM" => {
-                let target = popped[0];
+                let target = self.target_as_obj(popped[0], Kind::Dict);
                 self.store(target, &popped[1..], &mut info);
                 self.stack.push(target);
             }
             "APPENDS" | "SETITEMS" | "ADDITEMS" => {
-                let target = popped[0];
+                let kind = match name {
+                    "APPENDS" => Kind::List,
+                    "SETITEMS" => Kind::Dict,
+                    _ => Kind::Set,
+                };
+                let target = self.target_as_obj(popped[0], kind);
                 self.store(target, &slice, &mut info);
                 self.stack.push(target);
             }
@@ -635,8 +653,9 @@ impl Vm {
             }
             "PUT" | "BINPUT" | "LONG_BINPUT" | "MEMOIZE" => {
                 // table: MEMOIZE pops the top object and pushes it back; PUT* leave the stack alone
-                for p in &popped {
-                    self.stack.push(*p);
+                for p in popped.clone() {
+                    let p = self.target_as_obj(p, Kind::Any);
+                    self.stack.push(p);
                 }
             }
             "EXT1" | "EXT2" | "EXT4" | "PERSID" => {
